@@ -2,13 +2,14 @@
 Same model, harness binary and correspondence as C03 (coq/C03/Model.v, harness/src/bin/c03.rs --mode c04)."""
 import vlib
 
-KNOWN = set()
+KNOWN = {"variable-at-position-with-default-rejected", "subscription-same-root-field-twice-rejected"}
 
 
 def classify(case, kind):
     if kind != "prop":
         return set()
-    return set(case.get("classes", [])) & KNOWN
+    # only the hand-written corpus documents carry classes; generated documents never do
+    return set(case.get("c04_classes", [])) & KNOWN
 
 
 def run(ctx):
